@@ -76,8 +76,12 @@ class RefEvaluator:
     """One instance per evaluation (CSE results are not cached: a common
     subexpression *means* its child)."""
 
-    def __init__(self, env):
+    def __init__(self, env, py_logic=False):
         self.env = env
+        # py_logic: and/or return the deciding operand (Python's semantics)
+        # instead of a bool (pymbolic's); used to compare parse *structure*
+        # with CPython on arbitrary operands
+        self.py_logic = py_logic
 
     def strict(self, exprs):
         """Evaluate all, collecting every operand's errors."""
@@ -173,15 +177,19 @@ class RefEvaluator:
             (a,) = self.strict([e.child])
             return _apply(operator.not_, a)
         elif t == "LogicalOr":
+            v = False
             for c in e.children:
-                if _apply(bool, self.ev(c)):
-                    return True
-            return False
+                v = self.ev(c)
+                if _apply(bool, v):
+                    return v if self.py_logic else True
+            return v if self.py_logic else False
         elif t == "LogicalAnd":
+            v = True
             for c in e.children:
-                if not _apply(bool, self.ev(c)):
-                    return False
-            return True
+                v = self.ev(c)
+                if not _apply(bool, v):
+                    return v if self.py_logic else False
+            return v if self.py_logic else True
         elif t == "Comparison":
             a, b = self.strict([e.left, e.right])
             return _apply(_CMP[e.operator], a, b)
@@ -224,9 +232,9 @@ class RefEvaluator:
         raise RefSkip(f"no reference semantics for {t}")
 
 
-def ref_eval(e, env):
+def ref_eval(e, env, py_logic=False):
     try:
-        return ("val", RefEvaluator(env).ev(e))
+        return ("val", RefEvaluator(env, py_logic).ev(e))
     except RefError as err:
         return ("err", err.errs)
 
@@ -319,3 +327,30 @@ def exc_site(exc):
         if "/pymbolic/" in fs.filename:
             site = fs.filename.split("/pymbolic/", 1)[1] + ":" + fs.name
     return f"{type(exc).__name__}@{site}"
+
+
+def values_close(a, b, tol=1e-9):
+    """values_agree, but with absolute/relative tolerance *tol* as soon as a
+    float or complex takes part (re-association of inexact arithmetic)."""
+    import numpy as _np
+    if isinstance(a, (tuple, list)) or isinstance(b, (tuple, list)):
+        if type(a) is not type(b) or len(a) != len(b):
+            return False
+        return all(values_close(x, y, tol) for x, y in zip(a, b))
+    if isinstance(a, (complex, _np.complexfloating)) or isinstance(
+            b, (complex, _np.complexfloating)):
+        try:
+            return abs(complex(a) - complex(b)) <= tol * max(1, abs(complex(b)))
+        except Exception:
+            return False
+    if isinstance(a, (float, _np.floating)) or isinstance(b, (float, _np.floating)):
+        try:
+            fa, fb = float(a), float(b)
+        except Exception:
+            return False
+        if fa != fa and fb != fb:
+            return True
+        if fa == fb:
+            return True
+        return abs(fa - fb) <= tol * max(1.0, abs(fa), abs(fb))
+    return values_agree(a, b)
